@@ -26,6 +26,12 @@ pub struct IoInner {
 #[derive(Clone, Default)]
 pub struct Io(pub Arc<Mutex<IoInner>>);
 
+impl std::fmt::Debug for Io {
+    fn fmt(&self, f: &mut std::fmt::Formatter<'_>) -> std::fmt::Result {
+        write!(f, "Io")
+    }
+}
+
 impl AsyncRead for Io {
     fn poll_read(self: Pin<&mut Self>, _cx: &mut Context<'_>, buf: &mut ReadBuf<'_>) -> Poll<std::io::Result<()>> {
         let mut i = self.0.lock().unwrap();
